@@ -430,6 +430,51 @@ func checkC03(c *core.Ctx) {
 		}
 	}
 
+	// ---- R3.2 (error edge): lazy and eager report a decoder's error through the same function
+	{
+		errCallees := func(fn *ssa.Function) map[string]bool {
+			out := map[string]bool{}
+			if fn == nil {
+				return out
+			}
+			core.Instrs(fn, func(ins ssa.Instruction) {
+				call, ok := ins.(*ssa.Call)
+				if !ok {
+					return
+				}
+				f := call.Call.StaticCallee()
+				if f == nil || !p.InModule(f) {
+					return
+				}
+				// on an edge where a decoder's error is known non-nil
+				for _, dc := range core.DomConds(ins.Block()) {
+					bo, ok := dc.V.(*ssa.BinOp)
+					if !ok || !(core.IsNilConst(bo.X) || core.IsNilConst(bo.Y)) {
+						continue
+					}
+					if (bo.Op == token.NEQ && dc.Truth) || (bo.Op == token.EQL && !dc.Truth) {
+						out[f.Name()] = true
+					}
+				}
+			})
+			return out
+		}
+		eg := errCallees(p.Func("", "eagerPacket.initialDecode"))
+		lz := errCallees(p.Func("", "lazyPacket.decodeNextLayer"))
+		var missing []string
+		for name := range eg {
+			if !lz[name] {
+				missing = append(missing, name)
+			}
+		}
+		sort.Strings(missing)
+		if len(eg) == 0 {
+			r32.Missing("gopacket/error edge", "eager initialDecode calls nothing on its err != nil edge")
+		} else {
+			r32.Check(len(missing) == 0, "gopacket.(*lazyPacket).decodeNextLayer/error-edge-same-as-eager", p.Pos(p.Func("", "lazyPacket.decodeNextLayer").Pos()), "a decoder's error is reported through the function eager decoding uses", "on a decoder's error eager decoding calls "+strings.Join(missing, ", ")+" but lazy decoding does not: the failure layer (its bytes, its place in Layers(), Dump()) differs between Lazy and non-Lazy")
+		}
+	}
+
 	// ---- R3.3 over every function having a PacketBuilder param
 	roots := p.Roots()
 	n33 := 0
